@@ -9,7 +9,9 @@
 // a type/magnitude menu (pairs for Flate/LZW/CCITT), bombs, and filter chains;
 // plus (chain3.go, lzwstate.go) every chain of three filters with layered
 // bodies / bombs / last-layer parameters, and LZW bodies that drive the code
-// table to every width boundary and to the full state followed by every short tail.
+// table to every width boundary and to the full state followed by every short tail;
+// plus (jbig2prog.go) every short sequence of well-formed JBIG2 segments with
+// every choice of the referred-to segments.
 // Every case is executed in a single-threaded worker process (engine/procs)
 // because the oracles read process-global counters.
 package c08
@@ -403,6 +405,7 @@ func Run(tier string) int {
 		"every /Filter x /DecodeParms shape; every filter sequence of length <= 2 and repeated filters of length 3, 8, 9, each with unmutated and single-mutation bodies; " +
 		"every filter sequence of length 3 with bodies valid for 3 / 2 / 1 leading layers, with bombs encoded once per amplifying layer, and with the parameter menu on the last layer; " +
 		"LZW table-state bodies written by the harness's own code emitter: clear-table code + N filler codes (N around every code-width boundary and around the full table, both EarlyChange values) + every short tail over {top code, top-1, clear, EOD, literal}. " +
+		"JBIG2 segment programs written by the harness's own segment header writer: every sequence of length <= 3 (thorough <= 4) over an alphabet of well-formed segments (page information small/large, immediate and intermediate generic regions 8x8/64x64, immediate and intermediate generic refinement regions, symbol dictionary, immediate and intermediate text region, end of page), and length 4 (5) with a page information segment first, each with every choice of the referred-to segment (none, every segment of the program incl. itself and later ones, a missing one). " +
 		"distinct = distinct (entry point, mode, dictionary, body, object) tuples that differ from an unmutated seed")
 	r.Assume(
 		"deviation bound 1: at most one mutation per case (two coupled fields for width x height claims, two keys for parameter pairs)",
@@ -526,6 +529,9 @@ func selfTest(t *table) string {
 		}
 	}
 	if msg := lzwEmitterSelfTest(); msg != "" {
+		return msg
+	}
+	if msg := jbig2ProgramSelfTest(); msg != "" {
 		return msg
 	}
 	// the case <-> JSON round trip must preserve the case
